@@ -132,6 +132,7 @@ PROPS.update({
         "technique": "Lean 4 case-analysis theorems on the step function + correspondence on handle histories + Lean monitors on settled real traces",
         "monitors": ["C07", "C01", "C02"],
         "corr": corr(["eager", "shutdown", "handles", "mixed", "burst", "timeouts"]),
+        "extra": ["stress"],
         "extract_items": ["lifecycle", "send_paths", "handle_algebra"],
         "assumptions": COMMON_ASSUME + ["the two sender counts of an ActorRef are treated as one (both closure arms are on_stop(false); break - shape lemma lifecycle_arms)"],
     },
@@ -168,7 +169,7 @@ PROPS.update({
         "monitors": ["C03", "C04", "C05", "C13"],
         "extra": ["netcorr"],
         "corr": corr(["eager", "shutdown", "mixed", "burst", "idle"]),
-        "extract_items": ["ask_protocol", "lifecycle"],
+        "extract_items": ["ask_protocol", "lifecycle", "feature_sites"],
         "assumptions": COMMON_ASSUME + ["a panic unwinds only the panicking task (Tokio)"],
     },
     "C14": {
@@ -179,7 +180,7 @@ PROPS.update({
         "monitors": ["C03"],
         "extra": ["netcorr", "tables"],
         "corr": corr(["mixed"], nq=60, nt=500),
-        "extract_items": ["has_path", "format_cycle_path", "ask_protocol"],
+        "extract_items": ["has_path", "format_cycle_path", "ask_protocol", "feature_sites"],
         "assumptions": COMMON_ASSUME,
     },
     "C15": {
@@ -190,7 +191,7 @@ PROPS.update({
         "monitors": ["C03"],
         "extra": ["netcorr", "tables"],
         "corr": corr(["mixed"], nq=60, nt=500),
-        "extract_items": ["has_path", "format_cycle_path", "ask_protocol"],
+        "extract_items": ["has_path", "format_cycle_path", "ask_protocol", "feature_sites"],
         "assumptions": COMMON_ASSUME,
     },
 })
